@@ -60,7 +60,7 @@ func loadKnown(root string) []knownFinding {
 func matchKnown(kfs []knownFinding, prop string, v *violation) *knownFinding {
 	for i := range kfs {
 		k := &kfs[i]
-		if k.Status != "open" || k.Property != prop || k.Harness != v.Harness || k.Label != v.Label {
+		if k.Status != "open" || k.Property != prop || k.Harness != v.Harness || (k.Label != v.Label && k.Label != "*") {
 			continue
 		}
 		ok := true
